@@ -284,8 +284,10 @@ impl<'a, 'parent> ParamIter<'a> {
 impl<'a, 'parent> ArrayIter<'a> {
     fn recurse(&'parent mut self) -> Option<Result<ParamIter<'parent>, UnmarshalError>> {
         let consumed = *self.current_offset - self.start_offset;
-        debug_assert!(consumed <= self.consume_max_bytes);
-        if consumed >= self.consume_max_bytes {
+        if consumed > self.consume_max_bytes {
+            // the last element ran past the declared length
+            Some(Err(UnmarshalError::NotAllBytesUsed))
+        } else if consumed == self.consume_max_bytes {
             None
         } else {
             ParamIter::new(
@@ -301,10 +303,17 @@ impl<'a, 'parent> ArrayIter<'a> {
 impl<'a, 'parent> DictIter<'a> {
     fn recurse(&'parent mut self) -> Option<Result<ParamIter<'parent>, UnmarshalError>> {
         let consumed = *self.current_offset - self.start_offset;
-        debug_assert!(consumed <= self.consume_max_bytes);
-        if consumed >= self.consume_max_bytes {
+        if consumed > self.consume_max_bytes {
+            // the last element ran past the declared length
+            Some(Err(UnmarshalError::NotAllBytesUsed))
+        } else if consumed == self.consume_max_bytes {
             None
         } else {
+            // every dict entry starts on an 8 byte boundary
+            match crate::wire::util::align_offset(8, self.source, *self.current_offset) {
+                Ok(padding) => *self.current_offset += padding,
+                Err(e) => return Some(Err(e)),
+            }
             Some(Ok(ParamIter::DictEntry(DictEntryIter {
                 byteorder: self.byteorder,
                 counter: 0,
@@ -318,6 +327,20 @@ impl<'a, 'parent> DictIter<'a> {
     }
 }
 
+/// the length word of an array / dict at `offset`, within the protocol's limit
+fn read_array_len(
+    source: &[u8],
+    offset: usize,
+    byteorder: ByteOrder,
+) -> Result<usize, UnmarshalError> {
+    let rest = source.get(offset..).ok_or(UnmarshalError::NotEnoughBytes)?;
+    let len = crate::wire::util::parse_u32(rest, byteorder)? as usize;
+    if len > crate::wire::unmarshal::MAX_ARRAY_LEN {
+        return Err(UnmarshalError::MessageTooLong);
+    }
+    Ok(len)
+}
+
 fn make_new_array_iter<'a>(
     offset: &'a mut usize,
     source: &'a [u8],
@@ -325,12 +348,15 @@ fn make_new_array_iter<'a>(
     el_sig: &'a signature::Type,
 ) -> Result<ArrayIter<'a>, UnmarshalError> {
     // get child array size
-    let array_len_bytes = crate::wire::util::parse_u32(&source[*offset..], byteorder)?;
+    let array_len_bytes = read_array_len(source, *offset, byteorder)?;
 
     // move offset
     *offset += 4;
     let padding = crate::wire::util::align_offset(el_sig.get_alignment(), source, *offset)?;
     *offset += padding;
+    if source.len() - *offset < array_len_bytes {
+        return Err(UnmarshalError::NotEnoughBytes);
+    }
 
     Ok(ArrayIter {
         byteorder,
@@ -340,7 +366,7 @@ fn make_new_array_iter<'a>(
         current_offset: offset,
         element_sig: el_sig,
 
-        consume_max_bytes: array_len_bytes as usize,
+        consume_max_bytes: array_len_bytes,
     })
 }
 fn make_new_variant_iter<'a>(
@@ -349,13 +375,17 @@ fn make_new_variant_iter<'a>(
     byteorder: ByteOrder,
 ) -> Result<VariantIter<'a>, UnmarshalError> {
     // get child array size
-    let (bytes, sig) = crate::wire::util::unmarshal_signature(&source[*offset..])?;
-    debug_assert_eq!(bytes, 4);
+    let rest = source.get(*offset..).ok_or(UnmarshalError::NotEnoughBytes)?;
+    let (bytes, sig) = crate::wire::util::unmarshal_signature(rest)?;
+    // the value starts behind the signature
+    *offset += bytes;
 
-    let sig = signature::Type::parse_description(sig)?
-        .into_iter()
-        .next()
-        .ok_or(UnmarshalError::WrongSignature)?;
+    let mut types = signature::Type::parse_description(sig)?;
+    if types.len() != 1 {
+        // There must be exactly one type in the signature!
+        return Err(UnmarshalError::WrongSignature);
+    }
+    let sig = types.remove(0);
 
     // move offset
     let padding = crate::wire::util::align_offset(sig.get_alignment(), source, *offset)?;
@@ -379,12 +409,15 @@ fn make_new_dict_iter<'a>(
     val_sig: &'a signature::Type,
 ) -> Result<DictIter<'a>, UnmarshalError> {
     // get child array size
-    let array_len_bytes = crate::wire::util::parse_u32(&source[*offset..], byteorder)?;
+    let array_len_bytes = read_array_len(source, *offset, byteorder)?;
 
     // move offset
     *offset += 4;
     let padding = crate::wire::util::align_offset(8, source, *offset)?;
     *offset += padding;
+    if source.len() - *offset < array_len_bytes {
+        return Err(UnmarshalError::NotEnoughBytes);
+    }
 
     Ok(DictIter {
         byteorder,
@@ -395,7 +428,7 @@ fn make_new_dict_iter<'a>(
         key_sig,
         val_sig,
 
-        consume_max_bytes: array_len_bytes as usize,
+        consume_max_bytes: array_len_bytes,
     })
 }
 
